@@ -315,3 +315,44 @@ Proof.
   destruct (explore_sound false ch_deps (ch_P reqs) sched 80 _ (H reqs Hin) Hv) as [HP _].
   apply andb_prop in HP. destruct HP as [HP H3]. apply andb_prop in HP. destruct HP as [H1 H2]. auto.
 Qed.
+
+(* ---------------------------------------------------------------- eager chains of depth up to 40 / 6
+   chain n = d(n-1) wraps d(n-2) ... wraps d0, all eager, undeploy suspends once.
+   (a) one driver request deploy(top); undeploy(top), every depth 1..40: deterministic up to the trivial
+       schedule, explored by the kernel;  (b) deploy(top); undeploy_all() with its n concurrent child tasks,
+       every depth 1..6, every interleaving.  wrap_order, once and return_after on every reachable state.
+   Depth is bounded because (1) the frame stacks of the recursion through the chain are unbounded, which the
+   finite-shape invariants of Deploy/Inductive*.v do not cover, and (2) the executable [step] runs at most
+   fuel0 = 2000 micro-steps per atomic stretch: the final unwinding of the nested `for name, deps in ...`
+   loops of undeploy is quadratic in the depth and exceeds the fuel from depth 46 on (the model marks the state
+   [bad]; the real code has no such limit). *)
+Definition chain (n : nat) : list dcfg :=
+  map (fun i => match i with 0 => plain 0 1 | S k => wrap k 0 1 end) (seq 0 n).
+Definition chP (n : nat) (reqs : list (list op)) (s : st) :=
+  wo_ok (chain n) (log s) && once_ok (log s) && ra_ok reqs (log s).
+Definition seqreq (n : nat) := [[ODeploy (n - 1); OUndeploy (n - 1)]].
+Definition allreq (n : nat) := [[ODeploy (n - 1); OAll]].
+
+Lemma chain_seq_explored :
+  forallb (fun n => explore false (chain n) (chP n (seqreq n)) 200 (init (seqreq n))) (seq 1 40) = true.
+Proof. vm_compute. reflexivity. Qed.
+Lemma chain_all_explored :
+  forallb (fun n => explore false (chain n) (chP n (allreq n)) 200 (init (allreq n))) (seq 1 6) = true.
+Proof. vm_compute. reflexivity. Qed.
+
+Lemma chain_seq_all_schedules : forall n sched, 1 <= n <= 40 ->
+  valid false (chain n) (init (seqreq n)) sched = true ->
+  chP n (seqreq n) (run false (chain n) (init (seqreq n)) sched) = true.
+Proof.
+  intros n sched Hn Hv. pose proof chain_seq_explored as H. rewrite forallb_forall in H.
+  assert (Hin : In n (seq 1 40)) by (apply in_seq; lia).
+  destruct (explore_sound false (chain n) (chP n (seqreq n)) sched 200 _ (H n Hin) Hv) as [HP _]. exact HP.
+Qed.
+Lemma chain_all_all_schedules : forall n sched, 1 <= n <= 6 ->
+  valid false (chain n) (init (allreq n)) sched = true ->
+  chP n (allreq n) (run false (chain n) (init (allreq n)) sched) = true.
+Proof.
+  intros n sched Hn Hv. pose proof chain_all_explored as H. rewrite forallb_forall in H.
+  assert (Hin : In n (seq 1 6)) by (apply in_seq; lia).
+  destruct (explore_sound false (chain n) (chP n (allreq n)) sched 200 _ (H n Hin) Hv) as [HP _]. exact HP.
+Qed.
